@@ -5,6 +5,7 @@ import (
 	"errors"
 	"math/rand"
 	"sync"
+	"time"
 
 	"github.com/marekgalovic/anndb/cluster"
 	"github.com/marekgalovic/anndb/math"
@@ -12,6 +13,8 @@ import (
 
 	log "github.com/sirupsen/logrus"
 )
+
+const allocatorProposalTimeout time.Duration = 1 * time.Second
 
 var (
 	partitionNotFoundErr error = errors.New("Partition not found")
@@ -181,24 +184,40 @@ func (this *Allocator) canModifyPartition(partition *partition) bool {
 	return this.clusterConn.Id() == this.clusterConn.NodeIds()[0]
 }
 
-func (this *Allocator) addNodeToPartitions(nodeId uint64) {
+// watchedPartitions returns the partitions the allocator watches at this moment.
+func (this *Allocator) watchedPartitions() []*partition {
 	this.partitionsMu.RLock()
 	defer this.partitionsMu.RUnlock()
 
+	partitions := make([]*partition, 0, len(this.partitions))
 	for _, partition := range this.partitions {
+		partitions = append(partitions, partition)
+	}
+	return partitions
+}
+
+// A replica change is proposed to the catalogue's raft group and waited for.
+// That group's apply loop calls watch/unwatch, which need partitionsMu and
+// hand their update to this loop: the proposal is therefore made without
+// holding partitionsMu and with a deadline. Without a leader (e.g. while a
+// restarted node replays its log) the wait would otherwise never end and the
+// apply loop would be blocked behind it for good.
+func (this *Allocator) addNodeToPartitions(nodeId uint64) {
+	for _, partition := range this.watchedPartitions() {
 		if this.canModifyPartition(partition) && partition.isUnderReplicated() {
-			partition.proposeAddNode(this.ctx, nodeId)
+			ctx, cancel := context.WithTimeout(this.ctx, allocatorProposalTimeout)
+			partition.proposeAddNode(ctx, nodeId)
+			cancel()
 		}
 	}
 }
 
 func (this *Allocator) removeNodeFromPartitions(nodeId uint64) {
-	this.partitionsMu.RLock()
-	defer this.partitionsMu.RUnlock()
-
-	for _, partition := range this.partitions {
+	for _, partition := range this.watchedPartitions() {
 		if this.canModifyPartition(partition) {
-			partition.proposeRemoveNode(this.ctx, nodeId)
+			ctx, cancel := context.WithTimeout(this.ctx, allocatorProposalTimeout)
+			partition.proposeRemoveNode(ctx, nodeId)
+			cancel()
 		}
 	}
 }
